@@ -2,6 +2,8 @@
 import vlib
 from heap_common import HeapSpec, PQSpec
 
+SPECS = {"heap": (HeapSpec(iterators=False), "harness", "runner"), "pq": (PQSpec(iterators=False), "harness", "runner")}
+
 PROP_FILES = ["C05"]
 
 
